@@ -32,7 +32,7 @@ func (c *ctlSink) Write(p []byte) (int, error) {
 	c.data = append(c.data, p...)
 	return len(p), nil
 }
-func (c *ctlSink) Sync() error  { c.syncs++; return nil }
+func (c *ctlSink) Sync() error { c.syncs++; return nil }
 func (c *ctlSink) Close() error {
 	c.closes++
 	if c.closeErr {
